@@ -58,7 +58,7 @@ Proof.
   intros H. induction ps as [|[text [p|]] r IH]; intros acc unk sec.
   - rewrite interp_go_nil. p_tac.
   - rewrite interp_go_ref. apply pres_bind; [apply H|]. intro pv.
-    destruct (to_string big_fuel pv) as [[s u] sc]. apply IH.
+    destruct (to_string (ts_need pv) pv) as [[s u] sc]. apply IH.
   - rewrite interp_go_text. apply IH.
 Qed.
 
